@@ -4,8 +4,10 @@ checked), executes one history of get / set / del / add_trait / remove_trait on 
 instance and records canonical observations:
     out    : ["Val", atom] | ["Done"] | ["Raise", exception-class]
     stored : atom of obj.__dict__[name] afterwards, or None when absent."""
+import copy
 import logging
 import os
+import pickle
 import sys
 
 sys.path.insert(0, os.path.dirname(os.path.abspath(__file__)))
@@ -14,9 +16,10 @@ import dlib  # noqa: E402
 logging.disable(logging.CRITICAL)
 
 from traits.api import (  # noqa: E402
-    Any, CInt, Constant, Disallow, Event, List, Map, HasPrivateTraits, HasStrictTraits, HasTraits, Int, Python,
-    ReadOnly, Str, Undefined, observe,
+    Any, CInt, Constant, DelegatesTo, Disallow, Event, List, Map, HasPrivateTraits, HasStrictTraits, HasTraits, Int,
+    Python, ReadOnly, Str, Undefined, observe,
 )
+from traits.ctrait import CTrait  # noqa: E402
 
 EXN = ["AttributeError", "TraitError", "TypeError"]
 ROOTS = [HasTraits, HasStrictTraits, HasPrivateTraits]
@@ -49,8 +52,27 @@ def atom(v):
     return OTHER
 
 
+def round_trip(t, how):
+    """The CTrait of definition `t` after a __getstate__/__setstate__ round trip: copy.copy, copy.deepcopy or
+    pickle (protocol 2 / highest).  ReadOnly and Disallow handlers cannot be pickled by reference (the module
+    attribute is the instance, not the class): they take the deepcopy route, which uses the same protocol."""
+    if isinstance(t, type):
+        t = t()
+    c = t if isinstance(t, CTrait) else t.as_ctrait()
+    if how == "copy":
+        return copy.copy(c)
+    if how == "deepcopy":
+        return copy.deepcopy(c)
+    try:
+        return pickle.loads(pickle.dumps(c, 2 if how == "pickle2" else pickle.HIGHEST_PROTOCOL))
+    except pickle.PicklingError:
+        return copy.deepcopy(c)
+
+
 def mk(pol):
     k = pol[0]
+    if k == "RT":       # ["RT", how, definition]: the definition after a state round trip
+        return round_trip(mk(pol[2]), pol[1])
     if k == "Python":
         return Python()
     if k == "Any":
@@ -124,15 +146,38 @@ def create(classes, cds, listener_at=None, table=None):
 MISSING = object()
 
 
-def execute(obj, ops, other=None):
-    """`other`: the second instance of the same class, used by the operations flagged "B"."""
+def _handler():
+    pass
+
+
+def execute(obj, ops, other=None, panel=None):
+    """`other`: the second instance of the same class, used by the operations flagged "B"; `panel`: an object
+    delegating to the first instance, operations flagged "V:<attribute>" go through that attribute of it."""
     first = obj
     hist = []
     for op in ops:
         k, n = op[0], op[1]
         obj = other if op[-1] == "B" else first
+        via = op[-1][2:] if isinstance(op[-1], str) and op[-1].startswith("V:") else None
         try:
-            if k == "Get":
+            if via is not None:
+                if k == "Get":
+                    out = ["Val", atom(getattr(panel, via))]
+                elif k == "Set":
+                    setattr(panel, via, val(op[2]))
+                    out = ["Done"]
+                elif k == "Del":
+                    delattr(panel, via)
+                    out = ["Done"]
+                else:
+                    raise ValueError(k)
+            elif k == "Listen":
+                obj.on_trait_change(_handler, n)
+                out = ["Done"]
+            elif k == "Unlisten":
+                obj.on_trait_change(_handler, n, remove=True)
+                out = ["Done"]
+            elif k == "Get":
                 out = ["Val", atom(getattr(obj, n))]
             elif k == "Set":
                 setattr(obj, n, val(op[2]))
@@ -216,7 +261,16 @@ def run_case_staged(case):
     k = case["cls"]
     if k < len(ROOTS):
         raise ValueError("the instance must be of a freshly created class")
-    hist += execute(classes[k](), main, classes[k]())
+    first = classes[k]()
+    panel = None
+    if case.get("delegations"):
+        # a plain HasTraits class delegating (modify semantics, one link) attribute a to <first>.<target>
+        ns = {"target_": Any()}
+        for a, tname, listenable in case["delegations"]:
+            ns[a] = DelegatesTo("target_", prefix=tname, listenable=bool(listenable))
+        panel = type(HasTraits)("Panel", (HasTraits,), ns)()
+        panel.target_ = first
+    hist += execute(first, main, classes[k](), panel)
     # type(obj).__mro__ as class indices (CHasTraits / object dropped): compared with the law's C3
     hist[0]["mro"] = [classes.index(c) for c in classes[k].__mro__ if c in classes]
     return hist
